@@ -439,8 +439,12 @@ func (i *interpreter) sprintf(format value, args []value) value {
 		return "<symbolic-format>"
 	}
 	hargs := make([]interface{}, len(args))
+	i.hostArgBudget = 2000
 	for k, a := range args {
 		hargs[k] = i.hostArg(a)
+	}
+	if os.Getenv("GOSYM_FMTDEBUG") != "" {
+		fmt.Fprintf(os.Stderr, "sprintf %q budget left %d\n", fs, i.hostArgBudget)
 	}
 	return fmt.Sprintf(fs, hargs...)
 }
@@ -513,6 +517,10 @@ func (i *interpreter) tryStringMethod(x iface) (s string, ok bool) {
 }
 
 func (i *interpreter) hostArgT(t types.Type, v value) interface{} {
+	i.hostArgBudget--
+	if i.hostArgBudget < 0 {
+		return opaqueArg{"…"}
+	}
 	switch x := v.(type) {
 	case nil:
 		return nil
